@@ -991,7 +991,26 @@ func checkValueNotifier(r *Reporter, p *Prog) {
 				afterNodes[np.B.Nodes[np.I-1]] = true
 			}
 		}
-		nSucc, bad := 0, ""
+		nSucc, bad, stale := 0, "", ""
+		_, notDeregistered := f.CondEdges(func(e ast.Expr) bool {
+			c, ok := ast.Unparen(e).(*ast.CallExpr)
+			if !ok {
+				return false
+			}
+			se, ok := ast.Unparen(c.Fun).(*ast.SelectorExpr)
+			if !ok || se.Sel.Name != "Load" {
+				return false
+			}
+			fs, ok := ast.Unparen(se.X).(*ast.SelectorExpr)
+			if !ok || objOfIdent(info, fs.X) != self {
+				return false
+			}
+			sel := info.Selections[fs]
+			if sel == nil || sel.Kind() != types.FieldVal {
+				return false
+			}
+			return strings.HasSuffix(typeName(sel.Obj().Type()), "atomic.Bool")
+		})
 		for _, rpt := range f.FindOwn(func(n ast.Node) bool { _, ok := n.(*ast.ReturnStmt); return ok }) {
 			rs, ok := f.nodeAt(rpt).(*ast.ReturnStmt)
 			if !ok || len(rs.Results) != 1 {
@@ -1034,6 +1053,21 @@ func checkValueNotifier(r *Reporter, p *Prog) {
 			}); found {
 				bad = fmt.Sprintf("%s: Wait returns success on a path that did not receive from the notification channel (%s): a cancelled context or a deregistration is reported as a notification", f.PosOf(rpt), strings.Join(w, " -> "))
 			}
+			// ... and after that receive the deregistration flag is looked at again: when the listener
+			// was deregistered before the value was notified both channels are closed and select picks
+			// one at random, so the receive alone does not show that the notification came first
+			for _, np := range notified {
+				if w, found := f.reach(np, &searchOpts{AvoidNode: setsError, AvoidEdge: func(e Edge) bool {
+					for _, fe := range notDeregistered {
+						if fe == e {
+							return true
+						}
+					}
+					return false
+				}}, func(pt Point, atExit bool) bool { return !atExit && f.At(pt, rpt) }); found {
+					stale = fmt.Sprintf("%s: after the receive from the notification channel Wait returns success without looking at the deregistration flag again (%s): a listener that was deregistered before Notify finds both channels closed and reports success half of the time", f.PosOf(rpt), strings.Join(w, " -> "))
+				}
+			}
 		}
 		switch {
 		case len(deregSignal) == 0 || len(notified) == 0:
@@ -1042,8 +1076,10 @@ func checkValueNotifier(r *Reporter, p *Prog) {
 			r.Fail("notifier/wait-success-only-on-notify", key, p.posStr(fd.Pos()), "Wait never returns success (vacuous)")
 		case bad != "":
 			r.Fail("notifier/wait-success-only-on-notify", key, p.posStr(fd.Pos()), bad)
+		case stale != "":
+			r.Fail("notifier/wait-success-only-on-notify", key, p.posStr(fd.Pos()), stale)
 		default:
-			r.Pass("notifier/wait-success-only-on-notify", key, p.posStr(fd.Pos()), fmt.Sprintf("%d success return(s), each reached only through the receive from the notification channel", nSucc))
+			r.Pass("notifier/wait-success-only-on-notify", key, p.posStr(fd.Pos()), fmt.Sprintf("%d success return(s), each reached only through the receive from the notification channel followed by a fresh look at the deregistration flag", nSucc))
 		}
 	}
 	// Deregister is single-shot (atomic swap) and Wait defers it
